@@ -19,9 +19,7 @@ import (
 	"fmt"
 	"net/url"
 	"os"
-	"runtime"
 	"sync"
-	"sync/atomic"
 
 	"github.com/pentops/j5/lib/j5codec"
 	"google.golang.org/protobuf/proto"
@@ -168,7 +166,6 @@ func main() {
 		}
 		got := make([][]outcome, ng)
 		gate := make(chan struct{})
-		var arrived atomic.Int32 // a spinning barrier behind the gate: the first calls start within a few hundred ns of each other
 		var wg sync.WaitGroup
 		for g := 0; g < ng; g++ {
 			g := g
@@ -176,12 +173,6 @@ func main() {
 			go func() {
 				defer wg.Done()
 				<-gate
-				arrived.Add(1)
-				for spin := 0; arrived.Load() < int32(ng) && spin < 1<<20; spin++ {
-					if spin%64 == 63 {
-						runtime.Gosched()
-					}
-				}
 				for _, c := range calls[g] {
 					got[g] = append(got[g], doCall(shared, b, encoded, c))
 				}
